@@ -655,6 +655,10 @@ def maildir_histories(rng, n: int) -> list:
         [('create', ['foo']), A([], ('S', 1), ('', 2)), ('select', []),
          ('move', [1, 2], ['foo']), ('select', ['foo']), ('move', [1], [])],
         [A([], ('', 1), ('F', 2), ('S', 3))],
+        # destination with a record of an expunged message (no CHECK since)
+        [('create', ['foo']), A(['foo'], ('', 1), ('', 2)), A([], ('', 3), ('S', 4)),
+         ('select', ['foo']), ('store', [1], '+', 'T'), ('expunge',), ('select', []),
+         ('move', [1], ['foo']), ('copy', [2], ['foo']), A(['foo'], ('F', 5), ('', 6))],
         [A([], ('', 1), ('S', 2)), ('select', []), ('move', [1, 2], []), ('copy', [3], []),
          ('check',)],
         [('create', ['foo']), A(['foo'], ('', 1), ('', 2)), ('select', ['foo']),
